@@ -447,7 +447,7 @@ class Executor(object):
         if not isinstance(modules, (list, tuple)):
             modules = [modules]
         self.modules = modules
-        self.mod = modules[0]
+        self.mod = modules[0] if modules else None
         self.stubs = dict(stubs or {})
         self.loop_bound = loop_bound
         self.max_depth = max_depth
@@ -474,6 +474,7 @@ class Executor(object):
         self.mem = Memory(self)
         self.global_regions = {}
         self.pc = []
+        self.pc_ids = {}
         self.node = root
         self.trail = []
         self.depth = 0
@@ -512,6 +513,13 @@ class Executor(object):
             raise Unsupported('solver returned unknown (%s)' % self.solver.reason_unknown())
         finally:
             self.solver.pop()
+
+    def _feas(self, c):
+        self.solver.push()
+        self.solver.add(c)
+        r = self._check()
+        self.solver.pop()
+        return r
 
     def model(self):
         if self._model is None:
@@ -554,15 +562,26 @@ class Executor(object):
         if z3.is_false(c):
             return False
         node = self.node
+        cid = c.get_id()
+        if cid in self.pc_ids:
+            return self.pc_ids[cid]
         if node.feas is None:
-            self.solver.push()
-            self.solver.add(c)
-            ft = self._check()
-            self.solver.pop()
-            self.solver.push()
-            self.solver.add(z3.Not(c))
-            ff = self._check()
-            self.solver.pop()
+            # one side may already be witnessed by the cached model of the path condition
+            ft = ff = None
+            m = self._model
+            if m is not None:
+                try:
+                    v = m.eval(c, model_completion=True)
+                    if z3.is_true(v):
+                        ft = z3.sat
+                    elif z3.is_false(v):
+                        ff = z3.sat
+                except z3.Z3Exception:
+                    pass
+            if ft is None:
+                ft = self._feas(c)
+            if ff is None:
+                ff = self._feas(z3.Not(c))
             if ft == z3.unknown or ff == z3.unknown:
                 raise Unsupported('solver unknown in branch feasibility')
             node.feas = (ft == z3.sat, ff == z3.sat)
@@ -581,7 +600,15 @@ class Executor(object):
                 lit = c if side == 0 else z3.Not(c)
                 self.solver.add(lit)
                 self.pc.append(lit)
-                self._model = None
+                m = self._model
+                if m is not None:
+                    try:
+                        v = m.eval(c, model_completion=True)
+                        if not ((side == 0 and z3.is_true(v)) or (side == 1 and z3.is_false(v))):
+                            self._model = None
+                    except z3.Z3Exception:
+                        self._model = None
+            self.pc_ids[cid] = (side == 0)
             self.trail.append((node, side))
             self.node = kid
             return side == 0
